@@ -27,7 +27,7 @@ def run_spec(pid, tier, spec, replay=None):
                 jobs.append([exe] + ["%s=%s" % kv for kv in b["args"].items()] + ["tier=" + tier, "seed=%d" % seed, "shard=%d" % sh, "nshards=%d" % n])
         res = c.run_jobs(jobs, deadline=t0 + deadline_s)
     except c.CannotDecide as e:
-        c.log(str(e))
+        c.log(str(e)[:3000])
         return c.finish(pid, tier, level, empty, [], [], t0, seed, False, cannot_decide=str(e)[:300])
     agg = c.Agg()
     agg.add(res)
